@@ -1940,7 +1940,18 @@ func checkerFloor(reader *ssa.Function, cond *ssa.BinOp, lst ssa.Value, handover
 			}
 			// the minimum: a parameter of the helper, or a field of a struct parameter
 			var mArg ssa.Value
-			switch y := cmp.Y.(type) {
+			cmpY := cmp.Y
+			// max(m, 0): at least m
+			if mc, ok := cmpY.(*ssa.Call); ok {
+				if bi, ok := mc.Call.Value.(*ssa.Builtin); ok && bi.Name() == "max" && len(mc.Call.Args) == 2 {
+					for k, a := range mc.Call.Args {
+						if kk, ok := mc.Call.Args[1-k].(*ssa.Const); ok && kk.Value != nil && kk.Value.ExactString() == "0" {
+							cmpY = a
+						}
+					}
+				}
+			}
+			switch y := cmpY.(type) {
 			case *ssa.Parameter:
 				for j, hp := range helper.Params {
 					if hp == y && j < len(call.Call.Args) {
